@@ -25,10 +25,12 @@ pub struct CChain {
     /// fault injection: drop this receiver when the counter reaches `drop_at`
     pub rx: Option<Arc<Mutex<Option<std::sync::mpsc::Receiver<ChainStats>>>>>,
     pub drop_at: u64,
+    /// every coordinate is multiplied by this (1 by default; 1e39 / 1e300 = finite f64 draws outside the f32 range)
+    pub scale: f64,
 }
 impl CChain {
     pub fn new(id: usize) -> Self {
-        CChain { id, count: 0, state: vec![id as f64, 0.0], rx: None, drop_at: u64::MAX }
+        CChain { id, count: 0, state: vec![id as f64, 0.0], rx: None, drop_at: u64::MAX, scale: 1.0 }
     }
 }
 impl MarkovChain<f64> for CChain {
@@ -41,7 +43,7 @@ impl MarkovChain<f64> for CChain {
         }
         // a chain that sometimes stays put (so that acceptance statistics are non-trivial)
         let v = (self.count / 2) as f64 * 0.5 + self.id as f64 * 10.0;
-        self.state = vec![self.id as f64 + 0.001 * self.count as f64, v];
+        self.state = vec![(self.id as f64 + 0.001 * self.count as f64) * self.scale, v * self.scale];
         &self.state
     }
     fn current_state(&self) -> &Vec<f64> {
@@ -974,6 +976,37 @@ fn reporter_faults(ctx: &Ctx) {
 }
 
 fn precision_grid(ctx: &Ctx) {
+    // f64 chains whose (finite) draws lie outside the f32 range: the statistics side works in f32, the call must still
+    // return run's draws
+    for scale in [1e39f64, 1e300] {
+        for n in [1usize, 3] {
+            let case = json!({"layer": "precision", "sampler": "user chain (f64)", "config": format!("{n} chain(s), draws of magnitude {scale:e}")});
+            ctx.evals(1);
+            ctx.transitions(2);
+            ctx.state(hash_str(&case.to_string()));
+            let mk = || {
+                let mut s = CSampler::new(n);
+                for c in s.chains.iter_mut() {
+                    c.scale = scale;
+                }
+                s
+            };
+            let a = catch(|| mk().run(6, 1).map(|x| x.iter().map(|v| v.to_bits()).collect::<Vec<u64>>()).map_err(|e| e.to_string()));
+            let b = catch(|| mk().run_progress(6, 1).map(|(x, _)| x.iter().map(|v| v.to_bits()).collect::<Vec<u64>>()).map_err(|e| e.to_string()));
+            match (a, b) {
+                (Ok(Ok(a)), Ok(Ok(b))) => {
+                    if a != b {
+                        ctx.violation(Violation::new("C10:draws-differ(huge f64 draws)", format!("run_progress returns other draws than run for draws of magnitude {scale:e}"), case.clone()));
+                    } else {
+                        ctx.outcome("precision-ok", 1);
+                    }
+                }
+                (_, Err(m)) => ctx.violation(Violation::new("C10:panic(huge f64 draws)", format!("run_progress panicked for finite f64 draws of magnitude {scale:e}: {m}"), case.clone())),
+                (_, Ok(Err(m))) => ctx.violation(Violation::new("C10:error(huge f64 draws)", format!("run_progress failed for finite f64 draws of magnitude {scale:e}: {m}"), case.clone())),
+                (a, _) => ctx.machinery_error(format!("run itself failed on the harness chain: {a:?}")),
+            }
+        }
+    }
     // HMC with a single chain, and with several chains that sit on one point and reject (live R-hat undefined): the call
     // must still succeed with run's draws
     for (n, eps, label) in [(1usize, 0.2f64, "1 chain"), (2, 0.2, "2 chains"), (3, 1e6, "3 chains, every proposal rejected")] {
